@@ -250,6 +250,11 @@ func TestC04(t *testing.T) {
 			c.c04Program(s, "rand-reentrant-recursion", src, true, "reentrant-recursion")
 		})
 
+		// arguments are bound to the parameters whatever the parameters are called: like the function itself,
+		// like a sibling, like a built-in, like a global
+		c.Rapid("parameters-with-coinciding-names", n/8, func(rt *rapid.T, s *Sub) {
+			c.c04Program(s, "parameters-with-coinciding-names", genCoincidingNames(rt), true, "coinciding-names")
+		})
 		c.Rapid("higher-order-call-sites", n/2, func(rt *rapid.T, s *Sub) {
 			src := genHigherOrder(rt)
 			c.c04Program(s, "higher-order-call-sites", place(src, drawPlacement(rt)), true, "higher-order")
